@@ -119,6 +119,7 @@ RUNTIME_FAULTS = [
     # a name that was referenced (validly) earlier on another line
     ("out-of-scope-name", "pz_q"),
     ("second-use-fails", "seen_q ( 1 )"),
+    ("member-key-not-a-string", "<* a = 1 *> [ stdout ]"),
     # errors raised by helpers that do not know where they were called
     ("comprehension-over-int", "[ x for x in v0 ]"),
     ("set-comprehension-over-int", "<< x for x in v0 >>"),
@@ -258,6 +259,20 @@ def build_program(ch, fault_src, place, syntax):
         planted = lay.multiline(fault_src)
         lay.sep()
         lay.toks("catch 'never' 0 finally def w = 2 ; end")
+    elif place == "strmethod":
+        # the fault is inside an object's _str_ method, which runs when the
+        # object is rendered by a call further down
+        lay.toks("def oq = <* n = 1 , _str_ = fn ( self ) do")
+        for k in range(ch.int(0, 2)):
+            filler(lay, 50 + k)
+        planted = lay.multiline(fault_src)
+        lay.sep()
+        lay.toks("end *> ;")
+        for k in range(ch.int(0, 2)):
+            filler(lay, 60 + k)
+        lay.multiline(ch.choice(["string ( oq )", "println ( oq )",
+                                 "length ( string ( [ oq ] ) )",
+                                 "s ( '{oq}' )"]))
     elif place == "function2":
         # fault inside fq, which is called from gq, which is called at top
         lay.toks("def fq ( p ) do")
@@ -479,7 +494,7 @@ def part_token_matrix(part):
 
 def part_programs(part, n):
     places = ["top", "block", "loop", "catchall", "function", "function",
-              "function2"]
+              "function2", "strmethod"]
 
     def body(tape):
         ch = TapeChooser(tape)
